@@ -71,7 +71,7 @@ func init() {
 	fw.Register(&fw.Property{
 		ID:     "C03",
 		Run:    runC03,
-		Rule:   "deterministic probes (8 thrown objects incl. call-shaped lists, symbols, maps/vectors of calls x 7 paths x {no finally, finally, finally reading the catch symbol} x {bare, inside a let binding the catch symbol outside}) plus seeded typed programs nesting try/catch/finally with throws in bodies, callees 1-3 frames down, inside map/apply, in handlers and next to finally, Go errors returned and panicked by harness builtins bound through lib/call; result, error class, thrown value (ErrorValue, structural), errors.Is for Go sentinels and the ordered trace are compared with the reference interpreter; distinct = program skeletons with non-empty trace",
+		Rule:   "deterministic probes (8 thrown objects incl. call-shaped lists, symbols, maps/vectors of calls x 7 paths x {no finally, finally, finally reading the catch symbol} x {bare, inside a let binding the catch symbol outside}) plus seeded typed programs nesting try/catch/finally with throws in bodies, callees 1-3 frames down, inside map/apply, in handlers and next to finally, Go errors returned and panicked by harness builtins bound through lib/call; result, error class, thrown value (ErrorValue, structural), errors.Is for Go sentinels and the ordered trace are compared with the reference interpreter; distinct = program skeletons with non-empty trace; thrown objects include nil/false/0/\"\"/[]/()/{}; builtins registered as plain Go function values (no binder) returning an error, panicking with an error and with a Go runtime error inside try bodies",
 		Assume: []string{"refmal's try semantics are written from the statement: handler value returned not re-evaluated, catch variable scoped to the handler, finally once after body/handler in the try's own scope with its own outcome ignored", "the representation of an error object raised by a builtin and bound to a catch variable is left open (matched as wildcard: error object or message string)"},
 		Finish: func(m *fw.Merged) {
 			m.Floor("programs", 10000)
